@@ -8,5 +8,6 @@ CONSTANTS
   MaxCrashes = 3
   Coarse = TRUE
   StatByName = FALSE
+  StampFirst = FALSE
   KnownCauses = {}
 CHECK_DEADLOCK FALSE
